@@ -125,6 +125,7 @@ func (p *peer) enableFSM(i int, conn net.Conn) {
 }
 
 func (p *peer) handleStateTransition(i int, t stateTransition) {
+	verifPeerPoint("peer.trans", p)
 	switch {
 	case t.to == establishedState:
 		// disable the other fsm
@@ -161,6 +162,7 @@ func (p *peer) handleStateTransition(i int, t stateTransition) {
 				(localID == remoteID) && (p.config.LocalAS > p.config.RemoteAS)
 			if dominant && i == out {
 				// attempt to disable other FSM
+				verifPeerPoint("peer.collide", p)
 				select {
 				case <-p.closeCh:
 					return
@@ -270,6 +272,7 @@ func (p *peer) run() {
 		case t := <-p.transitionCh[out]:
 			p.handleStateTransition(out, t)
 		case conn := <-p.inConnCh:
+			verifPeerPoint("peer.inconn", p)
 			if p.inHoldDown {
 				conn.Close()
 				continue
